@@ -387,10 +387,11 @@ where
             Err(_) if self.parser.has_number() => {
                 self.number_end();
                 // The end of that match may be the start of another
-                if self.parser.push(lo_token).is_ok() {
-                    self.tracker.number_advanced(pos);
-                } else {
-                    self.outside_number(&token)
+                match self.parser.push(lo_token) {
+                    Ok(()) => self.tracker.number_advanced(pos),
+                    // Skip potential linking words, as above
+                    Err(Error::Incomplete) => (),
+                    Err(_) => self.outside_number(&token),
                 }
             }
             Err(_) => self.outside_number(&token),
